@@ -333,6 +333,7 @@ move_thdir_to_final(const char *thdir, const char *thdir_final)
 {
 	DIR *dir;
 	int ret = 0;
+	int has_meta = 0;
 
 	if ((dir = opendir(thdir)) == NULL) {
 		err("opendir %s failed:", thdir);
@@ -345,6 +346,12 @@ move_thdir_to_final(const char *thdir, const char *thdir_final)
 		/* It should only contain stream.* directories, skip others */
 		if (strncmp(dirent->d_name, prefix, strlen(prefix)) != 0)
 			continue;
+
+		/* The metadata is moved last, see below */
+		if (strcmp(dirent->d_name, "stream.json") == 0) {
+			has_meta = 1;
+			continue;
+		}
 
 		char thread[PATH_MAX];
 		if (snprintf(thread, PATH_MAX, "%s/%s", thdir,
@@ -368,6 +375,22 @@ move_thdir_to_final(const char *thdir, const char *thdir_final)
 
 		if (move_thread_to_final(thread, thread_final) != 0)
 			ret = 1;
+	}
+
+	/* Move the metadata only after the events are in the final
+	 * directory, so a stream is never seen there as finished while
+	 * its events are missing or incomplete. */
+	if (has_meta && ret == 0) {
+		char meta[PATH_MAX];
+		char meta_final[PATH_MAX];
+		if (snprintf(meta, PATH_MAX, "%s/stream.json", thdir) >= PATH_MAX
+				|| snprintf(meta_final, PATH_MAX, "%s/stream.json",
+					thdir_final) >= PATH_MAX) {
+			err("snprintf: path too large: %s/stream.json", thdir);
+			ret = 1;
+		} else if (move_thread_to_final(meta, meta_final) != 0) {
+			ret = 1;
+		}
 	}
 
 	closedir(dir);
